@@ -290,53 +290,54 @@ func runC03(c *Ctx) {
 			continue
 		}
 		key := funcKey(tp, fd)
-		// first statement: if !pattern.MatchString(p) { p = CONST }
-		guard := false
-		var nameParam types.Object
-		if len(fd.Type.Params.List) > 0 && len(fd.Type.Params.List[0].Names) > 0 {
-			nameParam = tp.TypesInfo.Defs[fd.Type.Params.List[0].Names[0]]
+		// (a) the name: every use of the name parameter is the pattern test, or a merge with a constant on the side where
+		// the test succeeded (followed into a package-local helper the name is handed to)
+		if len(fn.Params) == 0 {
+			c.viol("C03.R3", key+"|name-validated-first", c.pos(fd.Pos()), name+" has no parameters")
+			continue
 		}
-		if is, ok := fd.Body.List[0].(*ast.IfStmt); ok {
-			if ue, ok := is.Cond.(*ast.UnaryExpr); ok && ue.Op == token.NOT {
-				if call, ok := ue.X.(*ast.CallExpr); ok && strings.HasSuffix(types.ExprString(call.Fun), patVar+".MatchString") && len(call.Args) == 1 {
-					if id, ok := call.Args[0].(*ast.Ident); ok && tp.TypesInfo.ObjectOf(id) == nameParam && len(is.Body.List) == 1 {
-						if as, ok := is.Body.List[0].(*ast.AssignStmt); ok && len(as.Lhs) == 1 {
-							if lid, ok := as.Lhs[0].(*ast.Ident); ok && tp.TypesInfo.ObjectOf(lid) == nameParam {
-								if _, isConst := constString(tp.TypesInfo, as.Rhs[0]); isConst {
-									guard = true
-								}
-							}
-						}
-					}
+		guardOK, guardWhy := nameGuarded(fn, fn.Params[0], patVar, 0)
+		c.check(guardOK, "C03.R3", key+"|name-validated-first", c.pos(fd.Pos()), "invalid function names are replaced by a constant before any use",
+			name+": the function name is used without first being matched against the name pattern (and replaced by a constant when it does not match): "+guardWhy)
+		// (b) what the result is made of: builder writes and returned pieces of the function and of the package-local
+		// helpers whose result it returns, with their parameters replaced by the arguments passed
+		pieces := scriptCallPieces(f, fn, 0)
+		nparam := 0
+		nameEsc := true
+		for _, ls := range pieces {
+			txt := leavesString(ls)
+			isName := false
+			for _, l := range flattenAll(ls) {
+				if l.Kind == "PARAM" && strings.HasPrefix(l.Info, ssaFuncName(fn)+"#"+fn.Params[0].Name()) {
+					isName = true
 				}
 			}
-		}
-		c.check(guard, "C03.R3", key+"|name-validated-first", c.pos(fd.Pos()), "invalid function names are replaced by a constant before any use",
-			name+": the function name is used without first being matched against the name pattern (and replaced by a constant when it does not match)")
-		// written operands
-		nparam := 0
-		for _, s := range findSinks(fn) {
-			if s.Kind != "Builder.WriteString" {
+			if isName {
+				if name == "SafeScript" && !(len(ls) >= 1 && allEscaped(ls)) {
+					nameEsc = false
+				}
 				continue
 			}
-			for _, o := range s.Operands {
-				ls := f.classify(o)
-				txt := leavesString(ls)
-				if strings.Contains(txt, "#functionName") || strings.Contains(txt, "PARAM:"+ssaFuncName(fn)+"#"+nameParam.Name()) {
-					if name == "SafeScript" {
-						c.check(len(ls) >= 1 && ls[0].Kind == "ESCAPED", "C03.R3", key+"|name-html-escaped", c.pos(s.Pos), txt, name+": the function name is written into the attribute value without the HTML escaper")
-					}
-					continue
+			onlyConst := true
+			for _, l := range flattenAll(ls) {
+				if l.Kind != "CONST" && l.Kind != "SAFE" && l.Kind != "BUILDER" {
+					onlyConst = false
 				}
-				nparam++
-				viaJSON := hasCallTo(ls, modPath+".jsonEncodeParam")
-				okOp := viaJSON
-				if name == "SafeScript" {
-					okOp = viaJSON && allEscaped(ls)
-				}
-				c.check(okOp, "C03.R3", fmt.Sprintf("%s|argument-write#%d", key, nparam), c.pos(s.Pos), txt,
-					fmt.Sprintf("%s writes an argument as %s: every argument must be jsonEncodeParam(arg)%s", name, txt, map[bool]string{true: " inside the HTML escaper (attribute context)", false: ""}[name == "SafeScript"]))
 			}
+			if onlyConst {
+				continue
+			}
+			nparam++
+			viaJSON := hasCallTo(ls, modPath+".jsonEncodeParam")
+			okOp := viaJSON
+			if name == "SafeScript" {
+				okOp = viaJSON && allEscaped(ls)
+			}
+			c.check(okOp, "C03.R3", fmt.Sprintf("%s|argument-write#%d", key, nparam), c.pos(fd.Pos()), txt,
+				fmt.Sprintf("%s writes an argument as %s: every argument must be jsonEncodeParam(arg)%s", name, txt, map[bool]string{true: " inside the HTML escaper (attribute context)", false: ""}[name == "SafeScript"]))
+		}
+		if name == "SafeScript" {
+			c.check(nameEsc, "C03.R3", key+"|name-html-escaped", c.pos(fd.Pos()), "the function name goes through the HTML escaper", name+": the function name is written into the attribute value without the HTML escaper")
 		}
 		if nparam == 0 {
 			c.viol("C03.R3", key+"|argument-write", c.pos(fd.Pos()), name+" no longer writes its arguments")
@@ -920,4 +921,154 @@ func rootIdent(e ast.Expr) *ast.Ident {
 			return &ast.Ident{Name: "_"}
 		}
 	}
+}
+
+// flattenAll expands CALL and ESCAPED/FPARAM wrappers to all inner leaves.
+func flattenAll(ls []leaf) []leaf {
+	var out []leaf
+	for _, l := range ls {
+		out = append(out, l)
+		out = append(out, flattenAll(l.Inner)...)
+	}
+	return out
+}
+
+// scriptCallPieces: the pieces a string-building function assembles its result from — operands of its builder writes
+// and the leaves of its return values; a returned call of a package-local helper contributes the helper's pieces with
+// the helper's parameters replaced by the call's arguments.
+func scriptCallPieces(f *flow, fn *ssa.Function, depth int) [][]leaf {
+	var out [][]leaf
+	if fn == nil || fn.Blocks == nil || depth > 3 {
+		return nil
+	}
+	for _, s := range findSinks(fn) {
+		if s.Kind == "Builder.WriteString" {
+			for _, o := range s.Operands {
+				out = append(out, f.classify(o))
+			}
+		}
+	}
+	for _, b := range fn.Blocks {
+		for _, ins := range b.Instrs {
+			ret, ok := ins.(*ssa.Return)
+			if !ok || len(ret.Results) != 1 {
+				continue
+			}
+			v := ret.Results[0]
+			if call, ok := v.(*ssa.Call); ok {
+				if callee := call.Common().StaticCallee(); callee != nil && callee.Pkg == fn.Pkg && callee.Blocks != nil && callee != fn {
+					for _, piece := range scriptCallPieces(f, callee, depth+1) {
+						var sub []leaf
+						for _, l := range piece {
+							sub = append(sub, f.substParams(l, callee, call.Common().Args, 0, map[ssa.Value]bool{})...)
+						}
+						out = append(out, sub)
+					}
+					continue
+				}
+			}
+			// a concatenation / join: one piece per leaf
+			for _, l := range f.classify(v) {
+				if l.Kind == "BUILDER" {
+					continue
+				}
+				out = append(out, []leaf{l})
+			}
+		}
+	}
+	return out
+}
+
+// nameGuarded: every use of the string parameter prm in fn is (1) the argument of <patVar>.MatchString, (2) an edge of
+// a phi whose other edges are constants, entering from a predecessor that is reached only when that match succeeded, or
+// (3) an argument of a package-local function in which the corresponding parameter is guarded in the same way.
+func nameGuarded(fn *ssa.Function, prm *ssa.Parameter, patVar string, depth int) (bool, string) {
+	if depth > 3 {
+		return false, "helper chain too deep"
+	}
+	refs := prm.Referrers()
+	if refs == nil {
+		return false, "parameter has no uses"
+	}
+	matchCalls := map[ssa.Value]bool{}
+	for _, r := range *refs {
+		if call, ok := r.(*ssa.Call); ok {
+			if cal := call.Common().StaticCallee(); cal != nil && ssaFuncName(cal) == "regexp.(Regexp).MatchString" && len(call.Common().Args) == 2 && call.Common().Args[1] == ssa.Value(prm) {
+				if ld, ok := call.Common().Args[0].(*ssa.UnOp); ok {
+					if g, ok := ld.X.(*ssa.Global); ok && g.Name() == patVar {
+						matchCalls[call] = true
+					}
+				}
+			}
+		}
+	}
+	sawGuard := false
+	for _, r := range *refs {
+		switch x := r.(type) {
+		case *ssa.Call:
+			if matchCalls[x] {
+				continue
+			}
+			callee := x.Common().StaticCallee()
+			if callee != nil && callee.Pkg == fn.Pkg && callee.Blocks != nil {
+				for i, a := range x.Common().Args {
+					if a == ssa.Value(prm) && i < len(callee.Params) {
+						ok, why := nameGuarded(callee, callee.Params[i], patVar, depth+1)
+						if !ok {
+							return false, "passed to " + callee.Name() + ": " + why
+						}
+						sawGuard = true
+					}
+				}
+				continue
+			}
+			return false, "used by " + x.String() + " before the pattern test"
+		case *ssa.Phi:
+			for i, e := range x.Edges {
+				if e == ssa.Value(prm) {
+					pred := x.Block().Preds[i]
+					iff, ok := pred.Instrs[len(pred.Instrs)-1].(*ssa.If)
+					if !ok {
+						// the predecessor may be an empty block on the success side of the test
+						if len(pred.Preds) == 1 {
+							if iff2, ok2 := pred.Preds[0].Instrs[len(pred.Preds[0].Instrs)-1].(*ssa.If); ok2 {
+								cond, neg := iff2.Cond, false
+								if u, isU := cond.(*ssa.UnOp); isU && u.Op == token.NOT {
+									cond, neg = u.X, true
+								}
+								succ := 0
+								if neg {
+									succ = 1
+								}
+								if matchCalls[cond] && pred.Preds[0].Succs[succ] == pred {
+									continue
+								}
+							}
+						}
+						return false, "merged with the validated name on a path that did not test it"
+					}
+					cond, neg := iff.Cond, false
+					if u, isU := cond.(*ssa.UnOp); isU && u.Op == token.NOT {
+						cond, neg = u.X, true
+					}
+					succ := 0
+					if neg {
+						succ = 1
+					}
+					if !matchCalls[cond] || pred.Succs[succ] != x.Block() {
+						return false, "the unvalidated name reaches the merge on the side where the pattern test failed"
+					}
+				} else if _, isC := e.(*ssa.Const); !isC {
+					return false, "merged with a non-constant replacement"
+				}
+			}
+			sawGuard = true
+		default:
+			return false, fmt.Sprintf("used by %s before the pattern test", r.String())
+		}
+	}
+	if !sawGuard || (len(matchCalls) == 0 && depth == 0 && !sawGuard) {
+		return false, "no pattern test found"
+	}
+	return true, ""
 }
